@@ -36,7 +36,12 @@ theorem banpsOf_append (l1 l2 : List Obj) : banpsOf (l1 ++ l2) = banpsOf l1 ++ b
 theorem podsOf_append (l1 l2 : List Obj) : podsOf (l1 ++ l2) = podsOf l1 ++ podsOf l2 := by
   unfold podsOf; rw [List.filterMap_append]
 
-/-- the kind of conflict an error of `build` names, as a property of the multiset of objects -/
+/-- the kind of conflict an error of `build` names, as a property of the multiset of objects.
+(The priority conflict is a kind like the others since `insertANP` refuses it at insertion: it is
+reported by the first object that meets it, whether or not the input holds other conflicts. When
+the priorities were only examined by the final sort the clause for `anpPriority` also said
+`ConflictFree objs`; with that clause `build_error_clause` is false for the present model:
+`[anp a/5, anp b/5, anp a/7]` is rejected with `anpPriority` and holds the name `a` twice.) -/
 def ErrClause (err : Err) (objs : List Obj) : Prop :=
   match err with
   | .dupNetpol => ¬ ((npsOf objs).map npKey).Nodup
@@ -44,7 +49,7 @@ def ErrClause (err : Err) (objs : List Obj) : Prop :=
   | .banpExists => 1 < (banpsOf objs).length
   | .banpName => ∃ b ∈ banpsOf objs, b.name ≠ "default"
   | .badPod => ∃ p ∈ podsOf objs, p.hostIP = ""
-  | .anpPriority => ConflictFree objs ∧
+  | .anpPriority =>
       ¬ (((anpsOf objs).map (·.prio)).Nodup ∧ ∀ a ∈ anpsOf objs, 0 ≤ a.prio ∧ a.prio ≤ 1000)
   | _ => False
 
@@ -59,7 +64,7 @@ theorem ErrClause.perm {err : Err} {objs objs' : List Obj} (hp : objs.Perm objs'
   · exact fun hn => h (((h2.map _).nodup_iff).mpr hn)
   · rw [← h3.length_eq]; exact h
   · obtain ⟨b, hb, hn⟩ := h; exact ⟨b, h3.mem_iff.mp hb, hn⟩
-  · refine ⟨h.1.perm hp, fun hn => h.2 ⟨((h2.map _).nodup_iff).mpr hn.1, fun a ha => hn.2 a (h2.mem_iff.mp ha)⟩⟩
+  · exact fun hn => h ⟨((h2.map _).nodup_iff).mpr hn.1, fun a ha => hn.2 a (h2.mem_iff.mp ha)⟩
   · obtain ⟨p, hp', hn⟩ := h; exact ⟨p, h4.mem_iff.mp hp', hn⟩
 
 /-- an error of the insertion fold names a conflict that is present -/
@@ -112,7 +117,31 @@ theorem fold_error_clause {objs : List Obj} {err : Err}
       have hm : a.name ∈ (anpsOf l1).map (·.name) := by
         rw [← f2]; simpa using hc
       exact (List.nodup_append.mp hn).2.2 _ hm _ (List.mem_cons_self ..) rfl
-    · cases he
+    · split at he
+      · -- a priority outside the range
+        rename_i hv
+        cases he
+        show ¬ (((anpsOf (l1 ++ Obj.anp a :: l2)).map (·.prio)).Nodup ∧
+          ∀ x ∈ anpsOf (l1 ++ Obj.anp a :: l2), 0 ≤ x.prio ∧ x.prio ≤ 1000)
+        rintro ⟨_, hr⟩
+        have := hr a (by rw [anpsOf_append, anpsOf_cons_anp]; simp)
+        unfold ANP.validPriority at hv
+        simp only [ge_iff_le, Bool.not_eq_true', decide_eq_false_iff_not] at hv
+        exact hv this
+      · split at he
+        · -- a priority held already
+          rename_i hany
+          cases he
+          show ¬ (((anpsOf (l1 ++ Obj.anp a :: l2)).map (·.prio)).Nodup ∧
+            ∀ x ∈ anpsOf (l1 ++ Obj.anp a :: l2), 0 ≤ x.prio ∧ x.prio ≤ 1000)
+          rintro ⟨hn, _⟩
+          rw [anpsOf_append, anpsOf_cons_anp, List.map_append, List.map_cons] at hn
+          obtain ⟨b, hb, hbp⟩ := List.any_eq_true.mp hany
+          have hperm : e1.anps.Perm (anpsOf l1) := by simpa using fold_anps_perm hf
+          have hm : a.prio ∈ (anpsOf l1).map (·.prio) :=
+            List.mem_map.mpr ⟨b, hperm.mem_iff.mp hb, by simpa using hbp⟩
+          exact (List.nodup_append.mp hn).2.2 _ hm _ (List.mem_cons_self ..) rfl
+        · cases he
   | banp b =>
     simp only [insertObject, insertBANP, hexp, Bool.false_eq_true, if_false] at he
     split at he
@@ -151,15 +180,9 @@ theorem build_error_clause {objs : List Obj} {err : Err} (h : Engine.build objs 
     cases hs : e1.sortANPs with
     | ok e2 => rw [hs] at h; cases h
     | error err' =>
-      rw [hs] at h
-      cases h
-      rw [sortANPs_error hs]
-      refine ⟨(fold_ok_iff objs).mp ⟨e1, hf⟩, fun hn => ?_⟩
-      have := (build_ok_iff objs).mpr ⟨(fold_ok_iff objs).mp ⟨e1, hf⟩, hn.1, hn.2⟩
-      obtain ⟨e, he⟩ := this
-      rw [build_eq, hf] at he
-      simp only [hs] at he
-      cases he
+      -- the sort never fails after a successful fold
+      obtain ⟨e2, he2⟩ := fold_sortANPs_ok hf
+      rw [he2] at hs; cases hs
 
 /-- **with one kind of conflict, every order reports the same error**: if `build` fails on an
 input in which only the kind of conflict named by the error is present, it fails with the same
